@@ -16,6 +16,7 @@ pub mod enums;
 pub mod obs;
 pub mod fw;
 pub mod gen;
+pub mod itermodel;
 pub mod play;
 
 use fw::CheckDef;
